@@ -552,7 +552,54 @@ func lookups(r *vh.Run, ck string, cfg *config.Config, m *conf.Model, text strin
 		if !mutK && !mutP {
 			cnt["lookup_config_unchanged"]++
 		}
+		// near misses: a realm name that is not configured (other letter case, one character more or less) has no servers.
+		// Only without dns_lookup_kdc, where an unknown realm must not go anywhere else for an answer.
+		if cfg.LibDefaults.DNSLookupKDC {
+			continue
+		}
+		for _, q := range []string{strings.ToLower(rl.Name), strings.ToUpper(rl.Name), swapCase(rl.Name), rl.Name + "X", rl.Name[:len(rl.Name)-1], " " + rl.Name, rl.Name + "."} {
+			configured := q == "" || q == cfg.LibDefaults.DefaultRealm
+			for _, o := range m.Realms {
+				configured = configured || o.Name == q
+			}
+			if configured {
+				continue
+			}
+			for _, tcp := range []bool{false, true} {
+				var n, n2 int
+				var mp, mp2 map[int]string
+				if p, pv, site := vh.Guard(func() {
+					n, mp, _ = cfg.GetKDCs(q, tcp)
+					n2, mp2, _ = cfg.GetKpasswdServers(q, tcp)
+				}); p {
+					r.Violation("C16|panic|"+site+"|"+vh.PanicClass(pv), "realm lookup panicked: "+pv, map[string]any{"case": lk, "file": text, "realm": q})
+					break
+				}
+				if n != 0 || len(mp) != 0 {
+					r.Violation("C16|getkdcs|unconfigured-realm-has-servers", fmt.Sprintf("GetKDCs(%q) = %d %v: no realm of that name is configured (configured: %q)", q, n, mp, rl.Name),
+						map[string]any{"case": lk, "file": text, "realm": q})
+				} else if n2 != 0 || len(mp2) != 0 {
+					r.Violation("C16|getkpasswd|unconfigured-realm-has-servers", fmt.Sprintf("GetKpasswdServers(%q) = %d %v: no realm of that name is configured (configured: %q)", q, n2, mp2, rl.Name),
+						map[string]any{"case": lk, "file": text, "realm": q})
+				} else {
+					cnt["lookup_unconfigured_realm_empty"]++
+				}
+			}
+		}
 	}
+}
+
+func swapCase(s string) string {
+	b := []byte(s)
+	for i, c := range b {
+		switch {
+		case c >= 'a' && c <= 'z':
+			b[i] = c - 32
+		case c >= 'A' && c <= 'Z':
+			b[i] = c + 32
+		}
+	}
+	return string(b)
 }
 
 func remap(mp map[int]string, def int) map[int]string {
